@@ -555,6 +555,18 @@ def r5(ctx):
     stmts = [s for s in walk_no_nested(f) if isinstance(s, ast.Assign)]
     stmts.sort(key=lambda s: s.lineno)
     perms = {}
+    # expressions denoting the (sorted) feature list of the contig at hand: self.features[key], the value variable of an items() loop,
+    # locals bound to either
+    feature_lists = set()
+    for l_ in [x for x in walk_no_nested(f) if isinstance(x, ast.For)]:
+        it = src(l_.iter)
+        if it in ('self.features.keys()', 'self.features') and isinstance(l_.target, ast.Name):
+            feature_lists.add(f'self.features[{l_.target.id}]')
+        elif it == 'self.features.items()' and isinstance(l_.target, ast.Tuple) and len(l_.target.elts) == 2 and all(isinstance(e_, ast.Name) for e_ in l_.target.elts):
+            feature_lists |= {l_.target.elts[1].id, f'self.features[{l_.target.elts[0].id}]'}
+    for s_ in stmts:
+        if isinstance(s_.targets[0], ast.Name) and src(s_.value) in feature_lists:
+            feature_lists.add(s_.targets[0].id)
 
     def tag_of(e):
         """order tag of an array-valued expression"""
@@ -563,7 +575,8 @@ def r5(ctx):
             return order[t]
         if isinstance(e, ast.Subscript) and src(e.slice) in perms and src(e.value) in order:
             return 'perm:' + src(e.slice)
-        if isinstance(e, ast.Call) and (dotted(e.func) or '').split('.')[-1] in ('fromiter', 'array') and 'self.features[chromosome]' in src(e):
+        if isinstance(e, ast.Call) and (dotted(e.func) or '').split('.')[-1] in ('fromiter', 'array') and any(
+                isinstance(c_, (ast.GeneratorExp, ast.ListComp)) and src(c_.generators[0].iter) in feature_lists for c_ in ast.walk(e)):
             return 'feature-order'
         if isinstance(e, ast.Call) and (dotted(e.func) or '').split('.')[-1] == 'argsort':
             return 'permutation'
@@ -586,6 +599,15 @@ def r5(ctx):
              ('no element-wise combination of differently ordered arrays' if not problems else '; '.join(problems)), key='sort:array-order',
              what='FeatureContainer.sort combines a re-ordered array element-wise with an array in feature order')
     # the longest feature is computed per feature tuple (end - start of the same tuple)
-    mx = [s for s in stmts if src(s.targets[0]) == 'maxLengthFeature']
-    ok = len(mx) == 1 and ('tup[1] - tup[0]' in src(mx[0].value) or not problems)
-    ctx.emit('C16-R5', ok, FEATURES, mx[0] if mx else f, f'longest feature: `{src(mx[0].value)[:80] if mx else None}`', key='sort:max-feature-size', nontrivial=False)
+    mxs = [s_ for s_ in stmts if src(s_.targets[0]).startswith('self.maxFeatureSizes[')]
+    mxv = mxs[0].value if len(mxs) == 1 else None
+    if isinstance(mxv, ast.Name):
+        ds = [s_ for s_ in stmts if isinstance(s_.targets[0], ast.Name) and s_.targets[0].id == mxv.id]
+        mxv = ds[0].value if len(ds) == 1 else None
+    ok = False
+    if isinstance(mxv, ast.Call) and (dotted(mxv.func) or '').split('.')[-1] == 'max' and mxv.args and isinstance(mxv.args[0], (ast.ListComp, ast.GeneratorExp)):
+        c_ = mxv.args[0]
+        g_ = c_.generators[0]
+        ok = len(c_.generators) == 1 and not g_.ifs and isinstance(g_.target, ast.Name) and src(g_.iter) in feature_lists and src(c_.elt) == f'{g_.target.id}[1] - {g_.target.id}[0]'
+    mx = mxs
+    ctx.emit('C16-R5', ok, FEATURES, mx[0] if mx else f, f'longest feature: `{src(mxv)[:80] if mxv is not None else None}`', key='sort:max-feature-size', nontrivial=False)
